@@ -6,6 +6,9 @@
      _snapshot/min_max_value.py:70, _snapshot/collection_value.py:138    node_tokens != normalize(value_tokens)    (needs_update_norm)
    A token is (type, text); type 3 is tokenize's STRING.  ast.literal_eval of a string token is the lexer model of
    StrLit.v (plain and b-prefixed literals, single and triple quotes; other prefixes: None = outside the model).
+   Since the repair F-94 (found with this model) all four call sites use the normalized comparison needs_update_norm; needs_update_leaf is
+   kept as the description of the pinned tree (C08_leaf_trailing_comma_update_refuted says why it was wrong), the harness reads from the
+   source on every run which form each call site uses.
    Executable definitions only. *)
 From Coq Require Import List NArith Bool.
 Import ListNotations.
